@@ -9,9 +9,10 @@ ASSUMPTIONS = [
     "add_new_frame: stack.len() + max_stack_size does not wrap u32 (needs >= 2^32 stack slots)",
     "instruction operands <= i32::MAX (operand_fits) so that the i32 stack effect is exact",
     "alloc_ignore_limit call sites are deliberate escape hatches and are not verified",
+    "toplevel unit: the interrupt flag (an atomic) is a pure read for the duration of one loop iteration; the rest of the loop body is replaced by `Ok(())`",
     "termination not proved by Kani",
 ]
-NOT_UNDER_CONTRACT = ["interrupt polling in execute", "native-stack depth of compiler/typechecker recursion",
+NOT_UNDER_CONTRACT = ["that one pass of the frame loop runs for a bounded time (an extern function may run for ever)", "native-stack depth of compiler/typechecker recursion",
                       "induction over Compiler::compile_ that max_stack_size bounds run-time use (compile_ also edits stack_size directly)"]
 GC = "vm/src/gc.rs"
 
@@ -37,6 +38,8 @@ def obligations(tier):
         v("stack", "StackFrame::enter_scope_excess", "the entry point of every call: Ok <=> len + max_stack_size(state) <= limit, Err(StackOverflow(limit)) otherwise; Ok pushes exactly one frame and leaves the values alone", "vm/src/stack.rs::StackFrame::enter_scope_excess"),
         v("stack", "StackFrame::enter_scope", "same guarantee for enter_scope (excess = false)", "vm/src/stack.rs::StackFrame::enter_scope"),
         v("stack", "arm::TailCall", "a tail call leaves the running frame first (the frame list shrinks) and moves the new function and its arguments down onto the slot of the returning function: nothing of the finished call remains on the stack (constant stack); pending excess arguments are appended to the call", "vm/src/thread.rs::execute_ arm TailCall"),
+        dict(engine="verus", unit="toplevel", function="execute::loop_head", name="C07/thread/execute_loop_polls_interrupt", source="vm/src/thread.rs::OwnedContext::execute (loop body up to the dispatch on the frame state)",
+             clause="every pass through the frame loop -- every call, tail call and return -- polls the interrupt flag before dispatching: requested => Err(Interrupted), not requested => the dispatch is reached"),
         v("stack", "ExecuteContext::exit_scope", "leaving a scope pops exactly the top frame, never a locked one", "vm/src/thread.rs::ExecuteContext::exit_scope"),
         v("compiler", "compile_primitive::or", "tail position is propagated into the right operand of `||` (so a recursive call there is a TailCall and runs in constant stack)", "vm/src/compiler.rs::compile_primitive (|| block)"),
         v("compiler", "compile_primitive::and", "tail position is propagated into the right operand of `&&`", "vm/src/compiler.rs::compile_primitive (&& block)"),
